@@ -191,12 +191,25 @@ func (w *WAL) Read() ([]types.Entry, error) {
 		// data length
 		var n int64
 		if err = binary.Read(reader, binary.LittleEndian, &n); err != nil {
+			if isTornTail(err) {
+				break
+			}
 			return nil, err
+		}
+
+		// a record is appended with one write and only acknowledged after the following
+		// fsync, so a crash can leave a cut-off last record; it was never acknowledged
+		// and is dropped
+		if n < 0 || n > int64(reader.Len()) {
+			break
 		}
 
 		// data body
 		data := make([]byte, n)
 		if err = binary.Read(reader, binary.LittleEndian, &data); err != nil {
+			if isTornTail(err) {
+				break
+			}
 			return nil, err
 		}
 
@@ -208,6 +221,10 @@ func (w *WAL) Read() ([]types.Entry, error) {
 	}
 
 	return entries, nil
+}
+
+func isTornTail(err error) bool {
+	return errors.Is(err, io.EOF) || errors.Is(err, io.ErrUnexpectedEOF)
 }
 
 func (w *WAL) Version() string {
